@@ -93,20 +93,32 @@ Definition apply_op (o : op) (xs : list bytes) : list bytes * list bytes :=
 
 Definition is_nil {A} (l : list A) : bool := match l with [] => true | _ => false end.
 
-(* does the command end with an error? *)
-Definition op_err (dt : dtype) (o : op) (out : list bytes) : bool :=
+(* does the command end with an error?  For the json type an empty result list
+   is the error "no data returned" with nothing written:
+   - match, left, right, prefix, suffix use the json ArrayWriter, whose Close
+     marshals a nil slice (utils/json.Marshal: `null` -> NoData) — always;
+   - msort, prepend, append use lang.MarshalData, whose json marshaller turns
+     NoData into `[]` unless proc strict-arrays is set (the default);
+   - mtac marshals a non-nil []any{} : `[]`, never an error. *)
+Definition json_empty_err (strict : bool) (o : op) : bool :=
+  match o with
+  | OpMtac => false
+  | OpMsort | OpPrepend _ | OpAppend _ => strict
+  | _ => true
+  end.
+
+Definition op_err (dt : dtype) (strict : bool) (o : op) (out : list bytes) : bool :=
   match o with
   | OpMatch ps => is_nil (join_sp ps) || (match dt with DJson => is_nil out | DStr => false end)
-  | OpMtac => false
-  | _ => match dt with DJson => is_nil out | DStr => false end
+  | _ => match dt with DJson => is_nil out && json_empty_err strict o | DStr => false end
   end.
 
 Record obs := { o_err : bool; o_out : list bytes; o_err2 : bool; o_out2 : list bytes }.
 
-Definition run (dt : dtype) (o : op) (xs : list bytes) : obs :=
+Definition run (dt : dtype) (strict : bool) (o : op) (xs : list bytes) : obs :=
   let r := apply_op o (in_elems dt xs) in
   match o with
-  | OpMatch _ => {| o_err := op_err dt o (fst r); o_out := fst r;
-                    o_err2 := op_err dt o (snd r); o_out2 := snd r |}
-  | _ => {| o_err := op_err dt o (fst r); o_out := fst r; o_err2 := false; o_out2 := [] |}
+  | OpMatch _ => {| o_err := op_err dt strict o (fst r); o_out := fst r;
+                    o_err2 := op_err dt strict o (snd r); o_out2 := snd r |}
+  | _ => {| o_err := op_err dt strict o (fst r); o_out := fst r; o_err2 := false; o_out2 := [] |}
   end.
